@@ -190,9 +190,111 @@ func (g *gen) repeated() {
 	}
 }
 
+// filters emits objects with and without explicit labels, shapes and styles, and globs whose
+// bodies carry filters (&label, !&label, &shape, &opacity, &leaf, &connected, &level, ...):
+// a filter on a keyword the object does not set is matched against an implicit default.
+func (g *gen) filters() {
+	tp := g.tp
+	n := 4 + tp.Draw(8, "flt.objects")
+	for i := 0; i < n; i++ {
+		switch tp.Draw(5, "flt.kind") {
+		case 0:
+			fmt.Fprintf(&g.sb, "fo%d\n", i)
+		case 1:
+			fmt.Fprintf(&g.sb, "fo%d: fo%d\n", i, (i+1)%n)
+		case 2:
+			fmt.Fprintf(&g.sb, "fo%d: lab%d {\n  shape: %s\n}\n", i, tp.Draw(3, "flt.lab"), shapes[tp.Draw(4, "flt.shape")])
+		case 3:
+			fmt.Fprintf(&g.sb, "fo%d.style.opacity: 0.%d\n", i, 4+tp.Draw(3, "flt.op"))
+		case 4:
+			fmt.Fprintf(&g.sb, "fo%d: {\n  inner%d\n}\n", i, i)
+		}
+	}
+	for i, m := 0, 1+tp.Draw(3, "flt.edges"); i < m; i++ {
+		fmt.Fprintf(&g.sb, "fo%d -> fo%d\n", tp.Draw(n, "flt.src"), tp.Draw(n, "flt.dst"))
+	}
+	conds := []string{"&label: fo%d", "!&label: fo%d", "&label: lab%d", "&shape: rectangle", "!&shape: circle", "&shape: " + shapes[1], "&style.opacity: 1", "&leaf: true", "&connected: true", "&level: 0", "!&label: lab%d", "&label: *o%d"}
+	bodies := []string{"style.stroke: blue", "style.stroke-dash: 3", "style.fill: honeydew", "style.bold: true", "shape: hexagon", "style.font-color: red", "style.multiple: true"}
+	for i, m := 0, 2+tp.Draw(4, "flt.globs"); i < m; i++ {
+		c := conds[tp.Draw(len(conds), "flt.cond")]
+		if strings.Contains(c, "%d") {
+			c = fmt.Sprintf(c, tp.Draw(n, "flt.arg"))
+		}
+		pat := []string{"*", "fo*", "**"}[tp.Draw(3, "flt.pat")]
+		fmt.Fprintf(&g.sb, "%s: {\n  %s\n  %s\n}\n", pat, c, bodies[tp.Draw(len(bodies), "flt.body")])
+	}
+}
+
+// RenderFeatures emits what only the renderer looks at: a legend, tooltips drawn next to
+// their shapes, links and tooltips (appendix), latex labels that define and use macros (a
+// TeX engine keeps definitions), code in several languages, markdown, fill patterns,
+// gradients, sketch-relevant shapes, animated and dashed connections, 3d/multiple.
+func (g *gen) RenderFeatures() {
+	tp := g.tp
+	if tp.Chance(1, 3, "rf.legend") {
+		g.sb.WriteString("vars: {\n  d2-legend: Legend {\n")
+		for i, n := 0, 2+tp.Draw(4, "rf.legend.n"); i < n; i++ {
+			fmt.Fprintf(&g.sb, "    lg%d: %s entry %d {\n      shape: %s\n", i, words[tp.Draw(len(words), "gen.word")], i, shapes[tp.Draw(len(shapes), "gen.shape")])
+			if tp.Chance(1, 2, "rf.legend.style") {
+				fmt.Fprintf(&g.sb, "      style.fill: %s\n", colors[tp.Draw(len(colors), "gen.color")])
+			}
+			g.sb.WriteString("    }\n")
+		}
+		g.sb.WriteString("    lg0 -> lg1: relation with a longer label {\n      style.stroke-dash: 2\n    }\n  }\n}\n")
+	}
+	if tp.Chance(1, 3, "rf.tooltips") {
+		pos := []string{"top-left", "top-center", "top-right", "center-left", "center-right", "bottom-left", "bottom-center", "bottom-right"}
+		for i, n := 0, 1+tp.Draw(4, "rf.tt.n"); i < n; i++ {
+			fmt.Fprintf(&g.sb, "tt%d: Shape %d {\n  tooltip: %s tip number %d {\n    near: %s\n  }\n}\n", i, i, words[tp.Draw(len(words), "gen.word")], i, pos[tp.Draw(len(pos), "rf.tt.pos")])
+		}
+	}
+	if tp.Chance(1, 3, "rf.appendix") {
+		g.sb.WriteString("ap1: linked {\n  link: https://example.com/one\n  tooltip: first tooltip of the appendix\n}\nap2: {\n  tooltip: second tooltip\n}\nap3.link: https://example.com/three\n")
+	}
+	if tp.Chance(1, 3, "rf.latex") {
+		macros := []string{"vop", "wop", "xop"}
+		for i, n := 0, 2+tp.Draw(3, "rf.latex.n"); i < n; i++ {
+			m := macros[tp.Draw(len(macros), "rf.latex.macro")]
+			switch tp.Draw(4, "rf.latex.kind") {
+			case 0:
+				fmt.Fprintf(&g.sb, "lx%d: |latex\n  \\DeclareMathOperator{\\%s}{%s%d} \\%s_{x} f(x)\n|\n", i, m, m, i, m)
+			case 1:
+				fmt.Fprintf(&g.sb, "lx%d: |latex\n  \\%s_{y} g(y) + %d\n|\n", i, m, i)
+			case 2:
+				fmt.Fprintf(&g.sb, "lx%d: |latex\n  \\newcommand{\\%s}{\\alpha^{%d}} \\%s + \\frac{1}{%d}\n|\n", i, m, i, m, i+2)
+			case 3:
+				fmt.Fprintf(&g.sb, "lx%d: |latex\n  e = mc^%d \\label{eq%d}\n|\n", i, i+2, tp.Draw(2, "rf.latex.label"))
+			}
+		}
+		g.sb.WriteString("lx0 -> lx1: |latex\n  \\sum_{i=0}^n i\n|\n")
+	}
+	if tp.Chance(1, 4, "rf.code") {
+		g.sb.WriteString("cd1: |go\n  func main() { fmt.Println(\"x\") }\n|\ncd2: |python\n  def f(x):\n      return x * 2\n|\ncd3: |sql\n  SELECT a, b FROM t WHERE a > 1;\n|\ncd4: |md\n  # Title\n  some *text* with `code`\n\n  - item one\n  - item two\n|\n")
+	}
+	if tp.Chance(1, 3, "rf.patterns") {
+		pats := []string{"dots", "lines", "grain", "paper"}
+		for i, n := 0, 1+tp.Draw(3, "rf.pat.n"); i < n; i++ {
+			fmt.Fprintf(&g.sb, "pt%d: {\n  style.fill-pattern: %s\n  style.fill: %s\n}\n", i, pats[tp.Draw(len(pats), "rf.pat")], []string{"\"linear-gradient(#f69d3c, #3f87a6)\"", "\"radial-gradient(red, yellow, green)\"", "honeydew"}[tp.Draw(3, "rf.grad")])
+		}
+		g.sb.WriteString("pt0 -> pt0: self {\n  style.animated: true\n}\n")
+	}
+	if tp.Chance(1, 4, "rf.icons") {
+		g.sb.WriteString("ic1: {\n  icon: https://icons.terrastruct.com/essentials/004-picture.svg\n}\nic2: img {\n  shape: image\n  icon: https://icons.terrastruct.com/essentials/005-programmer.svg\n}\n")
+	}
+}
+
 // Script returns a generated D2 script and the files it imports (nil when none).
-func Script(tp *tape.Tape) (string, map[string]string) {
+func Script(tp *tape.Tape) (string, map[string]string) { return script(tp, false) }
+
+// RenderScript is Script biased towards what the renderer looks at and away from programs
+// that end in a compile error.
+func RenderScript(tp *tape.Tape) (string, map[string]string) { return script(tp, true) }
+
+func script(tp *tape.Tape, render bool) (string, map[string]string) {
 	g := &gen{tp: tp}
+	if render && tp.Chance(3, 4, "gen.renderfeatures") {
+		g.RenderFeatures()
+	}
 	var files map[string]string
 	if tp.Chance(1, 3, "gen.vars") {
 		g.sb.WriteString("vars: {\n  a: alpha-value\n  b: beta-value\n  c: {\n    d: nested\n  }\n  d2-config: {\n    pad: 20\n  }\n}\n")
@@ -226,7 +328,7 @@ func Script(tp *tape.Tape) (string, map[string]string) {
 	if tp.Chance(1, 6, "gen.near") && len(ids) > 0 {
 		g.sb.WriteString("legend-ish: \"near top\" {\n  near: top-center\n}\n")
 	}
-	if tp.Chance(1, 5, "gen.subst") && strings.HasPrefix(g.sb.String(), "vars:") {
+	if tp.Chance(1, 5, "gen.subst") && strings.Contains(g.sb.String(), "  a: alpha-value") {
 		g.sb.WriteString("subst: ${a} and ${c.d}\n")
 	}
 	if tp.Chance(1, 4, "gen.boards") {
@@ -245,10 +347,13 @@ func Script(tp *tape.Tape) (string, map[string]string) {
 			g.sb.WriteString("}\n")
 		}
 	}
-	if tp.Chance(1, 4, "gen.repeated") {
+	if tp.Chance(1, 3, "gen.filters") {
+		g.filters()
+	}
+	if !render && tp.Chance(1, 4, "gen.repeated") {
 		g.repeated()
 	}
-	if tp.Chance(1, 4, "gen.errors") {
+	if !render && tp.Chance(1, 4, "gen.errors") {
 		g.errorRich()
 		if tp.Chance(1, 2, "gen.errors.import") {
 			// an unresolved variable at 1:1 of an imported file and at 1:1 of the root
